@@ -69,7 +69,7 @@ def main():
     with concurrent.futures.ThreadPoolExecutor(jobs) as ex:
         for m, verdict, out in ex.map(run_one, muts):
             good = verdict.startswith('KILLED') or verdict == 'QUIET' or verdict == 'STALE'
-            print('%-12s %-4s %-28s %s' % (verdict, m['property'], m['id'], m.get('what', '')))
+            print('%-12s %-4s %-28s %s' % (verdict, m['property'], m['id'], m.get('what', '')), flush=True)
             if not good:
                 bad += 1
                 print('    ' + out.replace('\n', '\n    ')[-1200:])
